@@ -30,11 +30,13 @@
       14 MP_REACH         `1000~14~2.1~<next-hop hex>~<NLRI list>`   (family outside AFI 1/2 × SAFI 1,2,4,128: <raw hex>)
       15 MP_UNREACH       `1000~15~2.1~<NLRI list>`
       other               `1100~99~<hex>`
-  REPORT is five words:  eor=<afi.safi|->  ann=<afi.safi/nexthop hex/NLRI joined by +|->
+  REPORT is six words:   eor=<afi.safi|->  ann=<afi.safi/nexthop hex/NLRI joined by +|->
                          wd=<afi.safi/NLRI joined by +|->  attrs=<code~value fields joined by ;|->
-                         raw=<afi.safi joined by +|->
+                         raw=<afi.safi joined by +|->  agg=<AGGREGATOR as sent|->/<AS4_AGGREGATOR as sent|->
     (attribute values as above, without flags; withdrawn NLRIs have labels `-`; `raw` lists the
-     families of MP attributes whose routes M-Wire does not decode, i.e. which are not in ann/wd)
+     families of MP attributes whose routes M-Wire does not decode, i.e. which are not in ann/wd;
+     `agg` gives the two aggregator attributes before the RFC 6793 reconciliation, `asn~ip`.
+     `decode` and `report` print all six words.)
 -/
 import ExaModel.Model.Wire
 import ExaModel.Driver.Util
@@ -97,8 +99,12 @@ def rawFamilies (u : UpdateSem) : List (Nat × Nat) :=
     | .mpUnreachRaw afi safi _ => some (afi, safi)
     | _ => none)
 
+def showAgg (x : Option (Nat × Nat)) : String :=
+  match x with | some (a, ip) => s!"{a}~" ++ showIp ip | none => "-"
+
 def showRaw (u : UpdateSem) : String :=
-  " raw=" ++ joinWith "+" ((rawFamilies u).map (fun f => s!"{f.1}.{f.2}"))
+  " raw=" ++ joinWith "+" ((rawFamilies u).map (fun f => s!"{f.1}.{f.2}")) ++
+  " agg=" ++ showAgg (findAgg u.attrs) ++ "/" ++ showAgg (findAgg4 u.attrs)
 
 def showReport (r : Report) : String :=
   "eor=" ++ showFam r.eor ++
